@@ -94,6 +94,8 @@ def classify(c, impl, model=None):
     why = oracle(c, impl) or ""
     if " cnt" in why:
         return "CountAfterRecovery"
+    if "LOST" in why and model and not shardprop.diffs(c, impl, model) and re.search(r"incomplete=[0-9]", model):
+        return "CrashLeftoverDirectoryBreaksReads"
     if "LOST" in why and model and not shardprop.diffs(c, impl, model):
         lost = set(int(x) for x in re.search(r"LOST \[([0-9, ]*)\]", why).group(1).split(",") if x.strip())
         ghost = set()
@@ -101,7 +103,11 @@ def classify(c, impl, model=None):
             mm = re.search(r"wlost=([0-9,]*)", ob)
             if mm:
                 ghost |= set(int(x) for x in mm.group(1).split(",") if x)
-        if lost and lost <= ghost:
+        # the known triggers that break the WAL-id / segment-id lockstep: a manual FLUSH, or a crash injected
+        # at a step point inside a rotation / flush. A loss in a history with neither (only kills of the
+        # quiescent process) is NOT known, even if the mechanism is again a pruned open log file.
+        ops = [tuple(o) for o in c["ops"]]
+        if lost and lost <= ghost and any(o[0] in ("F", "X") for o in ops):
             return "OpenWalFilePruned"
     return None
 
